@@ -32,6 +32,7 @@ type grammarDecl struct {
 	Source, Generated string
 	Values            bool     // the module/grammar/values obligation is part of the property's check
 	ValueExcept       []string // LHS/ordinal of alternatives exempt from it
+	NonEmpty          []string // nonterminals that must not derive the empty string (lists the contracts assume non-empty)
 	Command           []string
 	Precedence        []string
 	File              string
@@ -115,7 +116,7 @@ type contractDB struct {
 	Files     []string
 }
 
-var clauseKw = regexp.MustCompile(`^(includes|grammarvalues|grammar|precedence|owned|shared|solewriter|discipline|atomicinit|moves|globalframe|defines|heapwf|reveal|scope|invariant|ghost|spec|macro|lemma|contract|external|requires|ensures|emits|callsite|decreases|loop|safety|props|inline|pure|modifies|noreturn|fuel|unreachable)\b`)
+var clauseKw = regexp.MustCompile(`^(includes|grammarnonempty|grammarvalues|grammar|precedence|owned|shared|solewriter|discipline|atomicinit|moves|globalframe|defines|heapwf|reveal|scope|invariant|ghost|spec|macro|lemma|contract|external|requires|ensures|emits|callsite|decreases|loop|safety|props|inline|pure|modifies|noreturn|fuel|unreachable)\b`)
 
 func newContractDB() *contractDB {
 	return &contractDB{Specs: map[string]*specDef{}, Contracts: map[string]*contract{}, Ghosts: map[string]string{}, Scopes: map[string][]string{}, Invariants: map[string][]*clause{}, RevealPost: map[string]bool{}, GlobalFrame: map[string]bool{}, AtomicInit: map[string]bool{}, Moves: map[string]bool{}, Owned: map[string]bool{}, Discipline: map[string]bool{}, Shared: map[string]bool{}, SoleWriter: map[string]string{}, Grammars: map[string]*grammarDecl{}, Includes: map[string][]string{}}
@@ -268,6 +269,19 @@ func (db *contractDB) loadContractFile(path, pkgPath string) error {
 				db.Grammars[f[0]] = g
 			}
 			g.Source, g.Generated, g.Command, g.File, g.Line = f[1], f[2], f[3:], path, rc.line
+			cur = nil
+		case "grammarnonempty":
+			// grammarnonempty PROP NT...: these nonterminals cannot derive the empty string
+			f := strings.Fields(rest)
+			if len(f) < 2 {
+				return fail("grammarnonempty PROP NONTERMINAL...")
+			}
+			g := db.Grammars[f[0]]
+			if g == nil {
+				g = &grammarDecl{}
+				db.Grammars[f[0]] = g
+			}
+			g.NonEmpty = append(g.NonEmpty, f[1:]...)
 			cur = nil
 		case "grammarvalues":
 			// grammarvalues PROP [except LHS/N ...]: every action uses the value of every nonterminal of its right-hand side
